@@ -1743,6 +1743,13 @@ def _c12_worker(args):
                 "get-bad-path": cbor.req_get("../x"),
                 "get-absolute": cbor.req_get("/etc/passwd"),
                 "put-hash-mismatch": cbor.req_put("z", None, len(bad_body), b3.data(b"other")) + bad_body,
+                # refused Puts that touch what the valid tail is about to use: its directory (which does not exist yet),
+                # its very path, a directory below; whatever the refused request created, remembered or cleaned up on
+                # the way must not change what the tail gets
+                "put-hash-mismatch-in-the-tails-new-directory": cbor.req_put("t/bad", None, len(bad_body), b3.data(b"other")) + bad_body,
+                "put-hash-mismatch-at-the-tails-path": cbor.req_put("t/ok", None, len(bad_body), b3.data(b"other")) + bad_body,
+                "put-hash-mismatch-below-the-tails-new-directory": cbor.req_put("t/deeper/still/bad", None, len(bad_body), b3.data(b"other")) + bad_body,
+                "put-hash-mismatch-twice-in-the-tails-new-directory": cbor.req_put("t/bad", None, len(bad_body), b3.data(b"other")) + bad_body + cbor.req_put("t/bad2", None, 3, b3.data(b"other")) + b"abc",
                 "put-bad-path-with-content": cbor.req_put("../z", None, len(bad_body), b3.data(bad_body)) + bad_body,
                 "put-bad-path-content-looks-like-frames": cbor.req_put("/z", None, len(cbor.req_delete("keep", None)), b3.data(cbor.req_delete("keep", None))) + cbor.req_delete("keep", None),
                 "delete-bad-path": cbor.req_delete("../keep", None),
@@ -1780,8 +1787,11 @@ def _c12_worker(args):
                 if len(reps) < 2 or reps[1].get("kind") != "Error":
                     if not (may_end_session and len(reps) >= 2 and reps[1].get("kind") == "PutResult"):
                         viol("C12|resync|request-did-not-draw-an-error|" + ek, dict(label, reply=str(reps[1:2])[:200]))
-                if len(reps) >= 2 and reps[1].get("kind") == "Error":
-                    got = [strip(x) for x in reps[2:]]
+                nerr = 2 if "-twice-" in ek else 1
+                if nerr == 2 and len(reps) >= 2 and reps[1].get("kind") == "Error" and (len(reps) < 3 or reps[2].get("kind") != "Error"):
+                    viol("C12|resync|request-did-not-draw-an-error|" + ek, dict(label, reply=str(reps[2:3])[:200]))
+                elif len(reps) >= 2 and reps[1].get("kind") == "Error":
+                    got = [strip(x) for x in reps[1 + nerr:]]
                     want = [strip(x) for x in creps[1:]]
                     if got != want or ps.broken:
                         viol("C12|resync|stream-out-of-step-after-error|" + ek, dict(label, got=str(got)[:300], want=str(want)[:300], broken=ps.broken))
